@@ -126,7 +126,8 @@ def get_operation_count(layer, input_shape):
 
   elif layer.__class__.__name__ in [
       "AveragePooling2D", "AvgPool2D", "GlobalAvgPool2D",
-      "GlobalAveragePooling2D", "QGlobalAveragePooling2D"
+      "GlobalAveragePooling2D", "QAveragePooling2D",
+      "QGlobalAveragePooling2D"
   ]:
 
     if hasattr(layer, "pool_size"):
